@@ -18,6 +18,7 @@ RULE = (
     "sequences of up to 6/10 events over generated programs. Non-trivial = a query separated from the previous query of the same function by an event that changes that function's fresh version; "
     "distinct by (program, events)."
     " Round 5: renamed definitions (a late-defined variable or helper named like a builtin; very long names)."
+    " Round 6: references from nested scopes, variables as parameter defaults (mutated in place, never re-bound), declared dependencies; the exhaustive family also runs on a variant whose root declares a dynamically reached memento function."
 )
 ASSUMPTIONS = [
     "both the running process and the fresh process define every function as its own compilation unit (notebook cell): CPython compiles `mod.attr(...)` differently when `import mod` belongs to the same unit, so cell-defined and file-defined functions have different bytecode and hence different code hashes",
